@@ -745,6 +745,17 @@ def cond_of(body, b):
                 x, y = ref_target(body, c.args[0]), ref_target(body, c.args[1])
                 if pc == "ne":
                     T, F = F, T
+                # `p == Shared::null()` is `p.is_null()`
+                def is_null_const(l):
+                    if l is None:
+                        return False
+                    rs, _ = fl.roots(l)
+                    return bool(rs) and all(r[0] == "call" and body.call_at(r[1]) is not None and body.call_at(r[1]).is_("reclaim::Shared::null")
+                                            for r in rs)
+                if is_null_const(y) and not is_null_const(x):
+                    return dict(kind="is_null", arg=x, true=T, false=F, call=c)
+                if is_null_const(x) and not is_null_const(y):
+                    return dict(kind="is_null", arg=y, true=T, false=F, call=c)
                 return dict(kind="ptr_eq", a=x, b=y, true=T, false=F, call=c)
             if c.is_("reclaim::Shared::is_null"):
                 return dict(kind="is_null", arg=ref_target(body, c.args[0]), true=T, false=F, call=c)
